@@ -26,6 +26,8 @@ pub enum L {
     SendAbandon,
     CallAbandon,
     CallCalAbandon,
+    /// Addr::restart - not a message: what was accepted before and after it keeps its order
+    Restart,
 }
 
 pub const WAITING: [L; 5] = [L::SendAddr, L::SendSnd, L::CallCal, L::SendWSnd, L::CallWCal];
@@ -47,6 +49,7 @@ pub fn to_op(l: L, id: u32) -> Op {
         L::SendAbandon => Op::SendAbandon(H::Addr(0), id),
         L::CallAbandon => Op::CallAbandon(H::Addr(0), id),
         L::CallCalAbandon => Op::CallAbandon(H::Cal(0), id),
+        L::Restart => Op::Restart(H::Addr(0)),
     }
 }
 
@@ -161,10 +164,17 @@ pub fn oracle(s: &ProgScene<X>, t: &Trace) -> Vec<Violation> {
         }
     }
     // (4) state = sequential fold of the handled messages
+    // (a restart under the recreate strategy starts a fresh value: the fold starts over with it)
     let mut digest = DIGEST0;
     let mut handled = 0u32;
     let mut digest_at: Vec<(u32, u64)> = vec![];
+    let mut cur_inst: Option<u16> = None;
     for e in &an.exits {
+        if e.cb == Cb::Started && cur_inst != Some(e.inst) {
+            digest = DIGEST0;
+            handled = 0;
+            cur_inst = Some(e.inst);
+        }
         if let Cb::Msg(id) = e.cb {
             digest = fold(digest, id);
             handled += 1;
@@ -225,6 +235,17 @@ pub fn make_case_gap(progs: &[Vec<L>], mailbox: Mailbox) -> Case {
 
 thread_local! {
     static GAP: std::cell::Cell<bool> = const { std::cell::Cell::new(false) };
+    /// the actor runs an interval timer (period 1) registered in started()
+    static TICKING: std::cell::Cell<bool> = const { std::cell::Cell::new(false) };
+}
+
+/// the same, with an interval timer running in the actor (ticks are handlers like any other)
+pub fn make_case_ticking(progs: &[Vec<L>], mailbox: Mailbox, yields: u8, bound: Option<u32>) -> Case {
+    TICKING.with(|g| g.set(true));
+    let mut c = make_case_t(progs, mailbox, yields, bound, None);
+    TICKING.with(|g| g.set(false));
+    c.desc = c.desc.replacen("fifo", "fifo [interval timer running]", 1);
+    c
 }
 
 /// `slow`: a handler timeout of 2 ticks (carry on) is configured and the message with this
@@ -254,6 +275,9 @@ pub fn make_case_t(progs: &[Vec<L>], mailbox: Mailbox, yields: u8, bound: Option
     let mut spawn = SpawnCfg::plain(mailbox);
     if GAP.with(|g| g.get()) {
         spawn.timeout = Some((2, false));
+    }
+    if TICKING.with(|g| g.get()) {
+        role.started_actions.push(crate::world::Action::Interval { timer: 1, period: 1 });
     }
     if let Some(k) = slow {
         role.work.push((msg_id(0, k), Work { sleep: 5, ..Work::default() }));
@@ -376,6 +400,22 @@ fn plain_cases(tier: Tier) -> Vec<Case> {
             }
         }
     }
+    // a restart between submissions (with and without a timer running in the actor): the mailbox
+    // is kept, so whatever was accepted before and after the request is handled, in order
+    for &mb in &mailboxes {
+        for &x in &around {
+            for &y in &around {
+                for ticking in [false, true] {
+                    let mk = |progs: &[Vec<L>], bound: Option<u32>| if ticking { make_case_ticking(progs, mb, 0, bound) } else { make_case(progs, mb, 0, bound) };
+                    v.push(mk(&[vec![x, L::Restart, y, L::CallAddr]], None));
+                    v.push(mk(&[vec![x, L::Restart], vec![y]], if ticking { Some(4) } else { None }));
+                    if tier == Tier::Thorough {
+                        v.push(mk(&[vec![x, L::Restart, y], vec![L::SendAddr, L::Restart, L::CallCal]], Some(5)));
+                    }
+                }
+            }
+        }
+    }
     // four operations: one representative per (path x erasure) class
     let reps = [L::SendAddr, L::CallCal, L::SendWSnd, L::CallAddr, L::ForceWSnd];
     let mbs4: &[Mailbox] = if tier == Tier::Quick { &[Mailbox::B(0), Mailbox::B(1)] } else { &mailboxes };
@@ -435,7 +475,8 @@ fn plain_cases(tier: Tier) -> Vec<Case> {
 fn cases(tier: Tier) -> Vec<Case> {
     let mut v = plain_cases(tier);
     let s = crate::progscene::with_stream_variant(|| plain_cases(tier));
-    v.extend(s.into_iter().enumerate().filter(|(i, c)| (tier == Tier::Thorough || i % 3 == 0)).map(|(_, mut c)| {
+    // (a restart cannot be sent to a stream-attached actor)
+    v.extend(s.into_iter().enumerate().filter(|(i, c)| (tier == Tier::Thorough || i % 3 == 0) && !c.desc.contains("Restart")).map(|(_, mut c)| {
         // the attached stream is never ready, so the loop's select! tie-break cannot change anything:
         // it is not explored as a choice here (C13 explores it, with streams that do yield)
         c.exec.select_choice = false;
